@@ -30,6 +30,11 @@ impl Watch {
         self.stats.events += evs.len() as u64;
         let what = ctx.what.clone();
         self.note(format!("{what} -> {}", evs_short(evs)));
+        if let Some(t) = self.trace.as_mut() {
+            // frames are labelled uniformly: strict and lenient runs must yield comparable traces
+            let key = if what.starts_with("recv[") { "recv".to_string() } else { what.clone() };
+            t.push((key, evs.to_vec()));
+        }
 
         // C05: finite, bounded event list
         let bound = 16 + 2 * (self.m.store.len() + self.m.ids.len() + self.m.out.len());
